@@ -201,6 +201,34 @@ CHECKS = {
         design="6 (C18), 3.11", technique="TLA+ concurrency model checked exhaustively + trace validation of recorded multi-thread and sequential histories",
         note="Trusted: TLC; a 64-bit hash of JSON image + ordered diagnostics stands for the result. Real thread schedules are "
              "those the OS produces (their number is reported), not an exhaustive set."),
+    "C15": dict(
+        text="The specification contributes the abstract identity De(Ser(r)) = r with Ser(De(Ser(r))) = Ser(r) and the list of "
+             "model constructors (RequiredVariants in spec/Trace_Serde.tla: number/fraction/range/text values, fixed/linear "
+             "scalable values, every reference relation, recipe references, modifiers, timers, inline quantities, sections, "
+             "text blocks, every YAML node kind, every scale outcome) a run must have exercised. Recipes come from CookDoc "
+             "walks (extended and canonical parser), the structure kernel, front matters with nested YAML incl. non-string "
+             "keys and tags, recipe references, the repository's recipes and a grid of fraction-prone quantities; each is "
+             "taken as parsed, default-scaled, scaled by several factors and converted to both systems, serialised to JSON, "
+             "read back, compared and serialised again by the recorder; TLC judges every record (Returns, "
+             "SerializesAndDeserializes, DeserializedEqualsOriginal, ReserializationIdentical) and the final coverage record "
+             "(EveryVariantExercised: an unexercised constructor fails the run instead of passing silently).",
+        design="6 (C15)", technique="TLA+ generator (CookDoc) + trace validation of serde round trips with a variant-coverage clause",
+        note="Trusted: TLC, serde / serde_json (built with float_roundtrip) / serde_yaml as black boxes. ScaledRecipe has no "
+             "PartialEq: public fields plus the re-serialised image are compared. Two recorded findings (known_findings.json): "
+             "front matter with a non-string YAML key or a tagged value does not serialise to JSON."),
+    "C19": dict(
+        text="spec/CookCombine.tla specifies combine_ingredients_selected as a fold of amounts into per-(name, unit) groups "
+             "(numbers and ranges summed bound by bound, text and missing amounts kept apart); TLC enumerates every list up to "
+             "3 (thorough 4) entries from a 9-entry pool x every selection sequence, checks order independence on the model and "
+             "prints the predicted sums; the real bindings (compiled as an rlib from /repo/bindings) are run on each case and "
+             "TLC judges (spec/Trace_Ffi.tla) numeric sums, key sets, selection = combine of the sub-list, no panic. For the "
+             "mirror half canonically valid CookDoc recipes and the repository's recipes are parsed by parse_recipe (factors 1, "
+             "0.5, 3) and compared by TLC with the core recipe projected to the same shape: sections/blocks/items in order, "
+             "component lists, every item reference resolving through deref_component, per-step lists = the step's item "
+             "references, per-section lists = concatenation of the step lists.",
+        design="6 (C19)", technique="TLA+ combine model + TLC exhaustive lists x selections + replay into the bindings + trace validation of the mirrored recipe",
+        note="Trusted: TLC; quantities compared as shortest decimal strings; the bindings' uniffi scaffolding itself (the "
+             "generated foreign-language glue) is not executed, the exported Rust functions are."),
 }
 
 NOT_YET = "check not built yet in this session (work in progress, see DESIGN.md section 10)"
